@@ -169,6 +169,31 @@ pub fn constructs(thorough: bool) -> Vec<Construct> {
     v.push(stmt_c("if-empty-blocks", 1, |o| format!("r := if {} {{ }} else {{ }}; return r;", o[0])));
     v.push(stmt_c("block0", 1, |o| format!("{}; r := {{ }}; return r;", o[0])));
     v.push(stmt_c("fn-empty-body", 1, |o| format!("g := () -> () {{ }}; return (g(), {});", o[0])));
+    // binders whose body uses the bound name in an operation of its declared type (the folder
+    // must not evaluate that operation on a scrutinee constant of another type)
+    for t in palette::position_types() {
+        let ts = t.print();
+        let usage: &str = match ts.as_str() {
+            "int" => "x + 1",
+            "float" => "x / 2.0",
+            "string" => "x + \"s\"",
+            "[int]" => "x[0] + std.len(x + [1])",
+            "(int, int)" => "x.0 + x.1",
+            "mut int" => "*x + 1",
+            "()->int" => "x() + 1",
+            "struct{a: int}" => "x.a + 1",
+            "int|float" => "match x { i: int => i + 1, f: float => 1, }",
+            _ => continue,
+        };
+        let (ts2, u2) = (ts.clone(), usage.to_string());
+        v.push(stmt_c(&format!("ifset-typed-use:{ts}"), 2, move |o| format!("if x: {ts2} = {} {{ r := {u2}; return r }} else {{ return {} }}", o[0], o[1])));
+        let (ts2, u2) = (ts.clone(), usage.to_string());
+        v.push(stmt_c(&format!("match-typed-use:{ts}"), 2, move |o| format!("m := match {} {{ x: {ts2} => {{ r := {u2}; r }}, => {}, }}; return m;", o[0], o[1])));
+        let (ts2, u2) = (ts.clone(), usage.to_string());
+        v.push(stmt_c(&format!("whileset-typed-use:{ts}"), 2, move |o| format!("while x: {ts2} = {} {{ r := {u2}; return r }}; return {};", o[0], o[1])));
+        let (ts2, u2) = (ts.clone(), usage.to_string());
+        v.push(stmt_c(&format!("ifset-chain-typed-use:{ts}"), 2, move |o| format!("y := {}; if x: string = y {{ return x + \"t\" }} else if x: {ts2} = y {{ r := {u2}; return r }} else {{ return {} }}", o[0], o[1])));
+    }
     // a block / branch whose only statement re-declares an operand (by every declaration form):
     // afterwards the operand is meant again
     v.push(stmt_c("lone-declaration-in-block", 2, |o| format!("{{ {} := {} }}; return {};", o[0], o[1], o[0])));
@@ -309,6 +334,20 @@ pub struct GridResult {
 }
 
 /// C03 (d): every construct x every palette type assignment through the checker and `return_type()`.
+/// source texts of (up to two) constants of type `t`, simplest first, computed once per type
+fn literal_candidates(t: &Ty) -> Vec<&'static str> {
+    use std::collections::HashMap;
+    use std::sync::Mutex;
+    static CACHE: Mutex<Option<HashMap<Ty, Vec<&'static str>>>> = Mutex::new(None);
+    if let Some(v) = CACHE.lock().unwrap().get_or_insert_with(HashMap::new).get(t) {
+        return v.clone();
+    }
+    let mut values = Values::new();
+    let v: Vec<&'static str> = values.admitted(t, 1).into_iter().filter(|&i| !RECIPES[i].stateful || RECIPES[i].src.starts_with("mut ") || RECIPES[i].src.ends_with('~')).take(2).map(|i| RECIPES[i].src).collect();
+    CACHE.lock().unwrap().get_or_insert_with(HashMap::new).insert(t.clone(), v.clone());
+    v
+}
+
 pub fn check_only(thorough: bool) -> GridResult {
     let types = if thorough { palette::thorough_types() } else { palette::quick_types() };
     let mut cs = constructs(thorough);
@@ -339,6 +378,31 @@ pub fn check_only(thorough: bool) -> GridResult {
             crate::props::c03::probe(&text, interp, "std", false, st);
             if st.accepted > before && samples.len() < 2 && j % 997 == 0 {
                 samples.push(json!({"grid_program": text}));
+            }
+            // the same construct over constants (the folder then works on them): the first two
+            // recipes of every operand type, all combinations
+            if st.accepted > before {
+                let lit_cands: Vec<Vec<&str>> = tys.iter().map(|t| literal_candidates(t)).collect();
+                if lit_cands.iter().all(|c| !c.is_empty()) {
+                    let total: usize = lit_cands.iter().map(|c| c.len()).product();
+                    for k in 0..total.min(8) {
+                        let mut kk = k;
+                        let lits: Vec<&str> = lit_cands
+                            .iter()
+                            .map(|c| {
+                                let l = c[kk % c.len()];
+                                kk /= c.len();
+                                l
+                            })
+                            .collect();
+                        crate::props::c03::probe(&program_literal(c, &lits), interp, "std", false, st);
+                        // and bound to names first (constants propagated through variables)
+                        let bound: String = lits.iter().enumerate().map(|(i, l)| format!("k{i} := {l}; ")).collect();
+                        let names: Vec<String> = (0..lits.len()).map(|i| format!("k{i}")).collect();
+                        let name_refs: Vec<&str> = names.iter().map(|s| s.as_str()).collect();
+                        crate::props::c03::probe(&format!("{bound}{}", program_literal(c, &name_refs)), interp, "std", false, st);
+                    }
+                }
             }
         },
     );
